@@ -365,6 +365,10 @@ func load(cmdline, environ, envprefix []string, props *properties.Properties) (c
 		return nil, fmt.Errorf("proxy.noroutestatus must be between 100 and 999")
 	}
 
+	if cfg.GlobCacheSize < 0 {
+		return nil, fmt.Errorf("glob.cache.size must not be negative")
+	}
+
 	if cfg.Registry.Consul.AllowStale && cfg.Registry.Consul.RequireConsistent {
 		return nil, fmt.Errorf("registry.consul.allowStale and registry.consul.requireConsistent cannot both be true")
 	}
